@@ -72,6 +72,8 @@ type State struct {
 	eqNum    map[string]string // terms known equal to a numeral
 	freshRefs []string
 	protected []string // refs of non-escaping local allocations (survive havoc-all)
+	entryFrontier string          // frontier after the parameters: everything that existed at entry is at or below it
+	closedSeen    map[string]bool // entry-closure facts already assumed on this path
 }
 
 type lockRec struct {
@@ -113,6 +115,10 @@ func (st *State) fork() *State {
 		n.eqNum[k] = v
 	}
 	n.freshRefs = append([]string(nil), st.freshRefs...)
+	n.closedSeen = make(map[string]bool, len(st.closedSeen))
+	for k := range st.closedSeen {
+		n.closedSeen[k] = true
+	}
 	n.frames = make([]*Frame, len(st.frames))
 	for i, f := range st.frames {
 		g := *f
@@ -425,6 +431,14 @@ func (st *State) typeFacts(v *Val) {
 		st.assume("(and (>= (str_len " + v.Tm + ") 0) (<= (str_len " + v.Tm + ") 9223372036854775807))")
 	case SSlice:
 		st.assume("(and (>= (s_off " + v.Tm + ") 0) (>= (s_len " + v.Tm + ") 0) (>= (s_cap " + v.Tm + ") (s_len " + v.Tm + ")) (<= (s_cap " + v.Tm + ") 9223372036854775807) (>= (s_base " + v.Tm + ") 0) (=> (= (s_base " + v.Tm + ") 0) (= (s_cap " + v.Tm + ") 0)))")
+		// type safety: a backing array has one element type, so slices of different element types never share one
+		if v.T != nil {
+			if sl, ok := v.T.Underlying().(*types.Slice); ok {
+				if _, isTP := sl.Elem().(*types.TypeParam); !isTP {
+					st.assume("(=> (not (= (s_base " + v.Tm + ") 0)) (= (elemtag (s_base " + v.Tm + ")) " + fmt.Sprint(st.eng.typeTag(sl.Elem())) + "))")
+				}
+			}
+		}
 	case SInt:
 		if v.T != nil {
 			switch v.T.Underlying().(type) {
